@@ -94,4 +94,29 @@ def exAlg : DbAlg (List Nat) := ⟨fun d w => d ++ [w]⟩
 example : ((runOps exAlg {} exOps).fs.dir 3).isSome = true ∧ ((runOps exAlg {} exOps).fs.dir 4).isSome = true ∧
     (runOps exAlg {} exOps).fs.fullNeeded = true := by decide
 
+/-- the side conditions are satisfiable: an admissible sequence (incl. the SetDueNext(Full) between
+header and close that the fix makes Close refuse) -/
+def exOK : List (COp (List Nat)) :=
+  [.create 1 1 10 1, .wfull 1 [1] [] .ok, .close 1, .create 2 2 20 1, .winc 2 [2], .setFull, .close 2, .cancel 2]
+
+example : OpsOK exAlg {} exOK := by
+  refine ⟨⟨rfl, ?_, ?_⟩, trivial, trivial, ⟨?_, ?_, ?_⟩, ?_, trivial, trivial, trivial, trivial⟩
+  · intro h k hk; simp [getSink] at hk
+  · intro n d hl; cases hl.1
+  · simp [stepOp, create, writeFull, close, getSink, putSink, finalDir, FS.set]
+  · intro h k hk
+    simp [stepOp, create, writeFull, close, getSink, putSink, finalDir] at hk
+    rw [← hk.2]
+  · intro n d hl
+    obtain ⟨h1, h2⟩ := hl
+    simp [stepOp, create, writeFull, close, getSink, putSink, finalDir, FS.set] at h1
+    split at h1
+    · cases h1
+      rename_i hn
+      subst hn
+      simp [keyOf, keyLe]
+    · cases h1
+  · show ([2] : List Nat) ≠ []; simp
+
+
 end C09
